@@ -126,7 +126,10 @@ fn partition(r: &mut Rng, items: &[String], names: &[&str]) -> Vec<String> {
     while i < items.len() {
         let take = 1 + r.below(items.len() - i);
         let take = if r.chance(1, 3) { 1 } else { take };
-        attrs.push(format!("#[{}({})]", r.pick(names), items[i..i + take].join(", ")));
+        // a name declared `::`-rooted selects the un-rooted spelling too (and the reverse)
+        let nm = *r.pick(names);
+        let nm = if nm.starts_with("::") && r.chance(1, 2) { &nm[2..] } else { nm };
+        attrs.push(format!("#[{}({})]", nm, items[i..i + take].join(", ")));
         i += take;
     }
     attrs
